@@ -989,6 +989,8 @@ class Engine:
         a = node.attr
         if isinstance(base, VSlice) and a in ('start', 'stop', 'step'):
             return getattr(base, a)
+        if a == '__class__' and isinstance(base, (VSlice, VInt, VBool, VList, VTuple)):
+            return VConst(('builtin', {VSlice: 'slice', VInt: 'int', VBool: 'bool', VList: 'list', VTuple: 'tuple'}[type(base)]))
         if isinstance(base, VRec):
             if a in base.fields:
                 return base.fields[a]
